@@ -45,9 +45,24 @@ def modified_roots(I, body_nodes, fr):
             r = root_of(e["e"])
             if r is not None:
                 roots.add(r)
+        # shared handles (Rc<RefCell<..>>): anything reachable through them may be mutated by callees
+        if k == "path" and e["res"]["k"] == "local" and I.contains_handle(e["ty"]):
+            roots.add(("handles-in", e["res"]["id"]))
+        if k == "field" and I.is_handle_type(e["ty"]):
+            r = root_of(e)
+            if r is not None:
+                roots.add(("handle-of", r, field_path(e)))
     for n in body_nodes:
         walk(n, visit)
     return roots
+
+
+def field_path(e):
+    out = []
+    while e["k"] == "field":
+        out.append(e["name"])
+        e = e["e"]
+    return tuple(reversed(out))
 
 
 _LOCAL_NAMES = {}
@@ -91,6 +106,98 @@ def local_names(fn):
     visit(fn["body"])
     _LOCAL_NAMES[key] = out
     return out
+
+
+def heap_places(I, st, v, depth=0):
+    """Places of heap cells reachable from a value through handles."""
+    out = set()
+    if depth > 6:
+        return out
+    if isinstance(v, VMutRef):
+        if isinstance(v.place[0], tuple) and v.place[0] and v.place[0][0] == "heap":
+            out.add(v.place)
+        else:
+            try:
+                out |= heap_places(I, st, I.read_place(st, v.place), depth + 1)
+            except Exception:
+                pass
+    elif isinstance(v, VRec):
+        for x in v.f.values():
+            out |= heap_places(I, st, x, depth + 1)
+    elif isinstance(v, VTup):
+        for x in v.items:
+            out |= heap_places(I, st, x, depth + 1)
+    elif isinstance(v, VSeq):
+        def walk_t(t):
+            if isinstance(t, tuple):
+                if len(t) == 2 and t[0] == "mref" and isinstance(t[1], tuple):
+                    pl = t[1]
+                    if isinstance(pl[0], tuple) and pl[0] and pl[0][0] == "heap":
+                        out.add(pl)
+                    return
+                for y in t:
+                    walk_t(y)
+        walk_t(v.t)
+        import lax_model
+        kind = lax_model.LIST_ELEM.get(v.t)
+        if isinstance(kind, tuple) and kind[0] == "struct" and I.contains_handle(kind[1]):
+            if ("heap", "builder") in st.env:
+                out.add((("heap", "builder"), ()))
+    return out
+
+
+def resolve_roots(I, st, fr, roots, skip=lambda r: False, extra_values=()):
+    """root -> (place, current value); handles are followed to the heap cell they refer to."""
+    entry = {}
+    seen_places = set()
+    for xv in extra_values:
+        for place in sorted(heap_places(I, st, xv), key=repr):
+            v = I.read_place(st, place)
+            while isinstance(v, VMutRef):
+                place = v.place
+                v = I.read_place(st, place)
+            if place not in seen_places:
+                seen_places.add(place)
+                entry[("heap",) + place[0][1:]] = (place, v)
+    for r in sorted(roots, key=repr):
+        if skip(r):
+            continue
+        if isinstance(r, tuple) and r and r[0] == "handles-in":
+            key = (fr.id, r[1])
+            if key not in st.env:
+                continue
+            for place in sorted(heap_places(I, st, st.env[key]), key=repr):
+                v = I.read_place(st, place)
+                while isinstance(v, VMutRef):
+                    place = v.place
+                    v = I.read_place(st, place)
+                if place not in seen_places:
+                    seen_places.add(place)
+                    entry[("heap",) + place[0][1:]] = (place, v)
+            continue
+        if isinstance(r, tuple) and r and r[0] == "handle-of":
+            key = (fr.id, r[1])
+            if key not in st.env:
+                continue
+            try:
+                v = I.read_place(st, (key, r[2]))
+            except Exception:
+                continue
+            place = (key, r[2])
+        else:
+            key = (fr.id, r)
+            if key not in st.env:
+                continue
+            v = st.env[key]
+            place = (key, ())
+        while isinstance(v, VMutRef):
+            place = v.place
+            v = I.read_place(st, place)
+        if place in seen_places:
+            continue
+        seen_places.add(place)
+        entry[r] = (place, v)
+    return entry
 
 
 def fresh_like(I, st0, v, name, cands, path=()):
@@ -196,6 +303,8 @@ def assume_cands(st, cands, subst_same):
             st.add_eq(t_sum(c[1]) - t_len(c[2]))
         elif k == "len_eq":
             st.add_eq(t_len(c[1]) - t_len(c[2]))
+        elif k == "bound_len":
+            st.add_bound(c[1], t_len(c[2]))
         elif k == "rec_inv":
             import inv
             inv.assume_inv(None, st, c[1])
@@ -250,13 +359,16 @@ def check_cand(st, c, cur_of):
     if k == "len_eq":
         w = cur_of(c[2])
         return isinstance(v, VSeq) and isinstance(w, VSeq) and st.eq(t_len(v.t), t_len(w.t))
+    if k == "bound_len":
+        w = cur_of(c[2])
+        return isinstance(v, VSeq) and isinstance(w, VSeq) and prove_bound(st, v.t, t_len(w.t))
     if k == "elbound":
         import inv
         return isinstance(v, VSeq) and inv.elems_bounded(st, v.t, c[2], c[3])
     return False
 
 
-def run_loop(I, st, fr, site, roots, run_body, what):
+def run_loop(I, st, fr, site, roots, run_body, what, extra_values=()):
     """Generic Houdini driver.
     run_body(head_state) -> list of (state, value, ctl) outcomes of one iteration (ctl None/continue =
     back edge, 'break' = exit, 'ret' propagates).
@@ -264,17 +376,7 @@ def run_loop(I, st, fr, site, roots, run_body, what):
     fr.loop_ix += 1
     lname = (fr.fn["path"] if fr.fn else "?", "loop%d" % fr.loop_ix)
     # snapshot of entry values of modified roots
-    entry = {}
-    for r in sorted(roots, key=repr):
-        key = (fr.id, r)
-        if key not in st.env:
-            continue
-        v = st.env[key]
-        place = (key, ())
-        while isinstance(v, VMutRef):
-            place = v.place
-            v = I.read_place(st, place)
-        entry[r] = (place, v)
+    entry = resolve_roots(I, st, fr, roots, extra_values=extra_values)
     cands = []
     fresh = {}
     names = local_names(fr.fn) if fr.fn else {}
@@ -293,6 +395,10 @@ def run_loop(I, st, fr, site, roots, run_body, what):
                 cands.append(("sum_len", fx, fy))
             if fx is not fy and repr(fx) < repr(fy) and st.eq(t_len(ox), t_len(oy)):
                 cands.append(("len_eq", fx, fy))
+            if fx is not fy and prove_bound(st, ox, t_len(oy)) and (ox[0] != "empty" or oy[0] in ("v", "concat", "empty")):
+                import lax_model
+                if not lax_model.LIST_ELEM.get(fx) and not lax_model.label_of(ox) and fx not in lax_model.LABEL_LEAVES:
+                    cands.append(("bound_len", fx, fy))
 
     leaf_loc = {}
     for r, (place, v) in entry.items():
@@ -478,7 +584,7 @@ def for_loop(I, e, st, fr):
                 for s2 in m:
                     res.extend(I.ev(body_expr, s2, fr))
             return res
-        head, exits, others = run_loop(I, s0, fr, e, roots, body, "for")
+        head, exits, others = run_loop(I, s0, fr, e, roots, body, "for", extra_values=[itv])
         # the loop may run zero or more times: the abstract head state covers every exit
         out.append((head, UNIT, None))
         out.extend(exits)
